@@ -20,8 +20,12 @@ open Cog.NF (noBadTy noBadList noBadFields)
 
 /-! ### conditions -/
 
+/-- the entry point type is absent (the zero `Type{}`) or has no nil kind pointer -/
+def eptFine (t : Ty) : Bool :=
+  noBadTy t || (match t with | .bad k _ => k == "" | _ => false)
+
 def NoBad (S : Schemas) : Bool :=
-  S.all fun s => noBadTy s.entryPointType && s.objects.all fun ko => noBadTy ko.2.ty
+  S.all fun s => eptFine s.entryPointType && s.objects.all fun ko => noBadTy ko.2.ty
 
 def scalarConstantTyped (o : Obj) : Bool :=
   match o.ty with
@@ -40,7 +44,7 @@ def rawHintNode : Ty → Bool
 def NoRawDisjunctionHint (S : Schemas) : Bool := allSchemas rawHintNode S
 
 theorem noBad_mem {S : Schemas} (h : NoBad S = true) {s : Schema} (hs : s ∈ S) :
-    noBadTy s.entryPointType = true ∧ ∀ ko ∈ s.objects, noBadTy ko.2.ty = true := by
+    eptFine s.entryPointType = true ∧ ∀ ko ∈ s.objects, noBadTy ko.2.ty = true := by
   simp only [NoBad, List.all_eq_true, Bool.and_eq_true] at h
   exact h s hs
 
@@ -117,6 +121,26 @@ end
 theorem walkFail_none (hooked : List String) (t : Ty) (h : noBadTy t = true) : walkFail hooked t = none := by
   simp [walkFail, walkOk_of_noBad hooked (fun _ => true) t h (allTy_structTrue t)]
 
+/-- the absent entry point type (`Type{}`: kind `""`) is not walked into by any visitor -/
+theorem walkOk_ept (hooked : List String) (structOk : Meta → Bool) (hh : hooked.contains "" = false) (t : Ty)
+    (h : eptFine t = true)
+    (ha : noBadTy t = true → allTy (fun t => match t with | .struct _ _ _ m => structOk m | _ => true) t = true) :
+    walkOk hooked structOk t = true := by
+  simp only [eptFine, Bool.or_eq_true] at h
+  rcases h with h | h
+  · exact walkOk_of_noBad hooked structOk t h (ha h)
+  · cases t with
+    | bad k m =>
+      have hk : k = "" := by simpa using h
+      subst hk
+      have hh' : ¬ "" ∈ hooked := by simpa using hh
+      simp [walkOk, walkedKinds, hh']
+    | _ => simp at h
+
+theorem walkFail_none_ept (hooked : List String) (hh : hooked.contains "" = false) (t : Ty)
+    (h : eptFine t = true) : walkFail hooked t = none := by
+  simp [walkFail, walkOk_ept hooked (fun _ => true) hh t h (fun _ => allTy_structTrue t)]
+
 /-! ### plumbing of `firstFail` / `visitSchemaFail` / `mkRun` -/
 
 theorem firstFail_ne_panic {α : Type} (f : α → Option Failure) : ∀ l : List α,
@@ -150,13 +174,14 @@ theorem mkRun_noPanic (fail : Option Failure) (res : Schemas) (h : fail ≠ some
 /-- the common case: a visitor whose hooks never fail, objects judged by `objFail` -/
 theorem visitorFail_ne_panic (S : Schemas) (hb : NoBad S = true) (hooked : List String)
     (objFail : Obj → Option Failure)
-    (ho : ∀ s ∈ S, ∀ ko ∈ s.objects, noBadTy ko.2.ty = true → objFail ko.2 ≠ some .panic) :
+    (ho : ∀ s ∈ S, ∀ ko ∈ s.objects, noBadTy ko.2.ty = true → objFail ko.2 ≠ some .panic)
+    (hh : hooked.contains "" = false := by decide) :
     firstFail (visitSchemaFail (walkFail hooked) objFail) S ≠ some .panic := by
   apply firstFail_ne_panic
   intro s hs
   obtain ⟨he, hob⟩ := noBad_mem hb hs
   apply visitSchemaFail_ne_panic
-  · rw [walkFail_none hooked _ he]; simp
+  · rw [walkFail_none_ept hooked hh _ he]; simp
   · intro ko hko
     exact ho s hs ko hko (hob ko hko)
 
@@ -278,7 +303,42 @@ theorem topNotBad_of_noBad (S : Schemas) (h : NoBad S = true) : topNotBad S := b
 
 /-! ### every transformation -/
 
+theorem typeNameOk_of_noBad : ∀ t : Ty, noBadTy t = true → typeNameOk t = true
+  | .array e _, h => by
+    simp only [noBadTy] at h
+    simp [typeNameOk, typeNameOk_of_noBad e h]
+  | .bad .., h => by simp [noBadTy] at h
+  | .scalar .., _ => rfl
+  | .ref .., _ => rfl
+  | .cref .., _ => rfl
+  | .map .., _ => rfl
+  | .struct .., _ => rfl
+  | .enum .., _ => rfl
+  | .disj .., _ => rfl
+  | .inter .., _ => rfl
+  | .slot .., _ => rfl
+
+theorem noBadFields_mem : ∀ (fs : List Field) (f : Field), noBadFields fs = true → f ∈ fs → noBadTy f.ty = true
+  | [], _, _, h => by cases h
+  | g :: gs, f, hb, h => by
+    simp only [noBadFields, Bool.and_eq_true] at hb
+    rcases List.mem_cons.1 h with rfl | h'
+    · exact hb.1
+    · exact noBadFields_mem gs f hb.2 h'
+
+theorem firstMatchFail_ne_panic (p : RetypeField.Params) (o : Obj) (hp : typeNameOk p.as_ = true) :
+    ∀ fs : List Field, noBadFields fs = true → RetypeField.firstMatchFail p o fs ≠ some .panic
+  | [], _ => by simp [RetypeField.firstMatchFail]
+  | f :: fs, hb => by
+    simp only [noBadFields, Bool.and_eq_true] at hb
+    simp only [RetypeField.firstMatchFail]
+    split
+    · simp [typeNameOk_of_noBad f.ty hb.1, hp]
+    · exact firstMatchFail_ne_panic p o hp fs hb.2
+
 def xfCond : Xf → Schemas → Bool
+  | .retypeObject p, S => NoBad S && typeNameOk p.as_
+  | .retypeField p, S => NoBad S && typeNameOk p.as_
   | .constantToEnum _, S => NoBad S && ScalarConstantsTyped S
   | .hintObject p, S => NoBad S && (p.hints.isEmpty || NoNilHints S)
   | .prefixObjectNames _, S => NoBad S && NoRawDisjunctionHint S
@@ -315,13 +375,24 @@ theorem xform_total (x : Xf) (S : Schemas) (h : xfCond x S = true) : isPanic (x.
   | duplicateObject p =>
     exact mkRun_noPanic _ _ (duplicate_goFail_ne_panic p S [] (by simpa using topNotBad_of_noBad S h))
   | retypeObject p =>
-    exact mkRun_noPanic _ _ (visitorFail_ne_panic S h [] _ (fun _ _ _ _ _ => by simp))
+    simp only [xfCond, Bool.and_eq_true] at h
+    refine mkRun_noPanic _ _ (visitorFail_ne_panic S h.1 [] _ ?_)
+    intro _ _ ko _ hnb
+    simp only [RetypeObject.objFail, typeNameOk_of_noBad _ hnb, h.2]
+    simp
   | retypeField p =>
-    refine mkRun_noPanic _ _ (objFail_badStruct_ne_panic _ ?_ S h)
-    intro o hnb
+    simp only [xfCond, Bool.and_eq_true] at h
+    refine mkRun_noPanic _ _ (visitorFail_ne_panic S h.1 [] _ ?_)
+    intro _ _ ko _ hnb
     simp only [RetypeField.objFail]
-    cases ht : o.ty with
-    | bad k m => exact absurd ht (hnb k m)
+    cases ht : ko.2.ty with
+    | bad k m => exact absurd ht (notBadStruct_of_noBad hnb k m)
+    | struct fs g gi m =>
+      have : noBadFields fs = true := by
+        rw [ht] at hnb
+        simp only [noBadTy, Bool.and_eq_true] at hnb
+        exact hnb.1
+      exact firstMatchFail_ne_panic p ko.2 h.2 fs this
     | _ => simp
   | fieldsSetRequired p =>
     refine mkRun_noPanic _ _ (objFail_badStruct_ne_panic _ ?_ S h)
@@ -406,16 +477,19 @@ theorem xform_total (x : Xf) (S : Schemas) (h : xfCond x S = true) : isPanic (x.
       intro s hs
       obtain ⟨he, hob⟩ := noBad_mem h.1 hs
       obtain ⟨hre, hro⟩ := allSchemas_mem _ S h.2 s hs
+      have e : rawHintNode = (fun t => match t with
+          | .struct _ _ _ m => PrefixObjectNames.structOk m | _ => true) := by
+        funext t; cases t <;> rfl
       have key : ∀ t, noBadTy t = true → allTy rawHintNode t = true → PrefixObjectNames.tyFail t ≠ some .panic := by
         intro t hnb hr
         have : walkOk ["ref", "constant_ref", "enum"] PrefixObjectNames.structOk t = true :=
-          walkOk_of_noBad _ _ t hnb (by
-            have e : rawHintNode = (fun t => match t with
-                | .struct _ _ _ m => PrefixObjectNames.structOk m | _ => true) := by
-              funext t; cases t <;> rfl
-            rw [← e]; exact hr)
+          walkOk_of_noBad _ _ t hnb (by rw [← e]; exact hr)
         simp [PrefixObjectNames.tyFail, this]
-      exact visitSchemaFail_ne_panic _ _ s (key _ he hre) (fun ko hko => key _ (hob ko hko) (hro ko hko))
+      have keyE : PrefixObjectNames.tyFail s.entryPointType ≠ some .panic := by
+        have : walkOk ["ref", "constant_ref", "enum"] PrefixObjectNames.structOk s.entryPointType = true :=
+          walkOk_ept _ _ (by decide) _ he (fun _ => by rw [← e]; exact hre)
+        simp [PrefixObjectNames.tyFail, this]
+      exact visitSchemaFail_ne_panic _ _ s keyE (fun ko hko => key _ (hob ko hko) (hro ko hko))
   | appendCommentObjects p =>
     exact mkRun_noPanic _ _ (visitorFail_ne_panic S h [] _ (fun _ _ _ _ _ => by simp))
   | unspec => rfl
